@@ -73,7 +73,44 @@ def interesting_values(L, tname):
     for it in p["valid_items"]:
         if "lo" in it:
             vals.update((it["lo"], it["hi"]))
+    # bit patterns: every single bit, every run of low ones, byte lanes, words with only high bits (clear low 8 / 12 / 16 bits)
+    bits = 8 * p["width"]
+    for k in range(bits):
+        vals.update((1 << k, (1 << k) - 1, (1 << k) + 1, ((1 << bits) - 1) ^ (1 << k), ((1 << bits) - 1) >> k << k))
+    for k in range(0, bits, 8):
+        vals.update((0xFF << k, 0xA5 << k, 0x01 << k | 1))
+    for low in (8, 12, 16):
+        if bits > low:
+            vals.update((3 << low, 0x5A5A5A5A5A5A5A5A >> (64 - bits) >> low << low, ((1 << bits) - 1) >> low << low))
     return sorted(v for v in vals if lo <= v <= hi)
+
+
+_MEMBER_TEXTS = {}
+
+
+def member_texts(L, tname):
+    """text form -> integer for every member the type declares by name (not ranges)."""
+    if tname not in _MEMBER_TEXTS:
+        p = L.prim(tname)
+        out = {}
+        for m in p.get("members", []):
+            if "value" in m:
+                out.setdefault(f"{tname}.{m['name']}", set()).add(m["value"])
+        for it in p["valid_items"]:
+            if it.get("kind") == "member" and "lo" in it and it["lo"] == it["hi"]:
+                out.setdefault(it["text"], set()).add(it["lo"])
+        if p["kind"] == "rc":
+            # the pinned layout lists no members for the response-code type: the constants the class itself declares by name
+            # (upper-case class attributes that read as integers: TPM_RC.SUCCESS = 0)
+            T = O.lib_type(tname)
+            for name in vars(T):
+                if name.isupper():
+                    try:
+                        out.setdefault(f"{tname}.{name}", set()).add(int(getattr(T, name)))
+                    except Exception:  # noqa: BLE001 - not an integer constant
+                        pass
+        _MEMBER_TEXTS[tname] = out
+    return _MEMBER_TEXTS[tname]
 
 
 def is_boundary(L, tname, v):
@@ -135,6 +172,11 @@ def check_value(ctx, L, tname, v):
     texts = ctx.guard(lambda: (format(x, ""), str(x), f"{x}"), f"C16:text:{kind}", payload)
     if texts is None:
         return
+    # whatever the value: a declared member's name is the text form of that member's integer only
+    named = member_texts(L, tname)
+    for tx in texts:
+        if tx in named and v not in named[tx]:
+            return fail("text-names-other-member", f"text form {tx!r} is the declared name of {sorted(named[tx])}, not of {v} ({v:#x})")
     if valid:
         exp = expected_texts(L, tname, v)
         if exp is not None:
